@@ -58,7 +58,11 @@ pub open spec fn perm<F: Field>(s: Seq<F>) -> Seq<F> {
     if perm_raw(s).len() == s.len() { perm_raw(s) } else { s }
 }
 
-pub trait BfX: Sized { fn bits() -> (r: usize) ensures r == sp_bf_bits::<Self>(); }
+pub uninterp spec fn sp_order<BF>() -> nat;                               // the base-field modulus P
+pub open spec fn pw2(n: nat) -> nat decreases n { if n == 0 { 1 } else { 2 * pw2((n - 1) as nat) } }
+pub open spec fn canonical_width<BF>(n: nat) -> bool { pw2(n) <= sp_order::<BF>() }
+/// BF::bits() is the bit length of the (odd prime) modulus: 2^(bits-1) < P < 2^bits
+pub trait BfX: Sized { fn bits() -> (r: usize) ensures r == sp_bf_bits::<Self>(), r >= 1, pw2((r - 1) as nat) < sp_order::<Self>() < pw2(r as nat); }
 pub trait ExtX: FieldX {
     fn dimension() -> (r: usize) ensures r == sp_dim::<Self>(), r >= 1;
     fn from_u8(n: u8) -> (r: Self) ensures r == from_u8::<Self>(n as int);
@@ -77,8 +81,12 @@ impl<F: Field> CircuitBuilder<F> {
                 r is Ok <==> coeffs@.len() == sp_dim::<F>(),
                 r matches Ok(t) ==> final(self).has(t) && final(self).val(t) == ext_of(old(self).vals_of(coeffs@))
     { unimplemented!() }
+    /// `canonical_width`: C12's proviso — the decomposition is the canonical one only if 2^n_bits <= P.
+    /// It is a requirement for canonicity, not for safety; every call site must discharge it.
     #[verifier::external_body]
     pub fn decompose_to_bits<BF>(&mut self, x: ExprId, n_bits: usize) -> (r: Result<Vec<ExprId>, CircuitBuilderError>)
+        requires
+            canonical_width::<BF>(n_bits as nat),
         ensures final(self).extends(old(self)), r is Ok <==> n_bits <= sp_bf_bits::<BF>(),
                 r matches Ok(v) ==> v@.len() == n_bits && final(self).has_all(v@) && final(self).vals_of(v@) == bits_of(old(self).val(x), n_bits as nat)
     { unimplemented!() }
